@@ -22,18 +22,14 @@ PROPS["C12"] = {
         "string values are stored as owned strings (as<T>() on a linked string is a different property)",
         "default configuration (ARDUINOJSON_USE_DOUBLE=1, USE_LONG_LONG=1, 9/6 decimal places, thresholds 1e7 / 1e-5)",
     ],
-    # the sanitizer jobs make every out-of-bounds table read a crash (one process restart per case):
-    # quick keeps those to ~60 literals, thorough runs every n in 0..1200 under the sanitizers too
     "quick": [
-        dict(_NX12, mode="parse", args=["--families=acb"], max_restarts=400),
-        dict(_NX12, mode="parse", args=["--families=C"], flavour="fast"),
+        dict(_NX12, mode="parse", args=["--families=acb"]),
         dict(_NX12, mode="print", args=["--families=ifgd"]),
     ],
     "thorough": [
-        dict(_NX12, mode="parse", args=["--families=aCb"], max_restarts=4000),
-        dict(_NX12, mode="parse", args=["--families=C"], flavour="fast"),
+        dict(_NX12, mode="parse", args=["--families=acb"]),
         dict(_NX12, mode="print", args=["--families=ifgd"]),
-        dict(_NX12, mode="print", args=["--families=FG"], flavour="fast"),
+        dict(_NX12, mode="print", args=["--families=FGD"], flavour="fast"),
     ],
     "thorough_deadline": 840,
 }
